@@ -357,6 +357,25 @@ def exec (d : DState) (ws : List String) : R :=
     match var? v, parseFmt items with
     | some v, some f => if fmtOk f then mutOp d (some (.fromPrintf v f)) else .bad
     | _, _ => .bad
+  -- printf / fromDouble relative to the libc formatter: the line carries the format and argument for the real code
+  -- and `out`, the formatter's output, for the model (`printfOut`); the reference recomputes `out` independently
+  | ["printfX", v, _fmt, _arg, out] =>
+    match var? v, cstr? out with
+    | some v, some out =>
+      match printfOut s v out with
+      | some (s, n) => .ok { d with st := s } (toString n)
+      | none => .fault
+    | _, _ => .bad
+  | ["fromDouble", v, _x, out] => mutOp d (do pure (.fromOut (← var? v) (← cstr? out)))
+  -- `scanf("%d", &x)`: the C string view is taken, the libc parses the NUL-terminated view (result and value are the
+  -- libc's: carried by the line, recomputed by the reference)
+  | ["scanfD", v, n, x] =>
+    match var? v, n.toInt?, x.toInt? with
+    | some v, some n, some x =>
+      match step s (.cview v) with
+      | some s => .ok { d with st := s } s!"{n} {x}"
+      | none => .fault
+    | _, _, _ => .bad
   | ["trimD", v] => mutOp d (do pure (.trim (← var? v) Generated.trimDefault))
   | ["substr1", v, w, a] => mutOp d (do pure (.substr (← var? v) (← var? w) (← a.toInt?) Generated.substrDefaultLen))
   | ["splitD", v, h] =>
